@@ -407,9 +407,9 @@ namespace GeographicLib {
       drho = ((den != 0 && isfinite(den))
               ? (x*nx + y * (ny - 2*_nrho0)) / den
               : den);
-    drho = fmin(drho, _drhomax);
+    drho = drho > _drhomax ? _drhomax : drho; // preserve NaN
     if (_n == 0)
-      drho = fmax(drho, -_drhomax);
+      drho = drho < -_drhomax ? -_drhomax : drho;
     real
       tnm1 = _t0nm1 + _n * drho/_scale,
       dpsi = (den == 0 ? 0 :
